@@ -41,6 +41,7 @@ type genCfg struct {
 	multiCand   bool // patterns that match in several ways, with guards that accept some candidates (outcome may be arbitrary)
 	nativeOnly  bool // every action and guard is native (no interpreter, no goroutines)
 	inPlace     bool // native guards may work directly on the bindings they are handed
+	inPlaceAll  bool // ... and so may native actions and the guards of branches without a pattern (top level only: delete, overwrite, clear)
 	ext         bool // scripts run in the extended interpreter and may call _.randstr()
 	noop        bool // some actions and guards run in the shipped noop interpreter
 	globals     bool // scripts may count in a global of their runtime (a fresh runtime starts at 1)
@@ -176,7 +177,7 @@ func genAction(c *sim.Ctx, cfg genCfg, names []string, guard bool) *ref.Action {
 	a := &ref.Action{}
 	if cfg.native && (cfg.nativeOnly || c.Chance(1, 3, "native")) {
 		a.Native = true
-		if guard && cfg.inPlace && c.Chance(1, 2, "inplace") {
+		if (guard || cfg.inPlaceAll) && cfg.inPlace && c.Chance(1, 2, "inplace") {
 			a.InPlace = true
 		}
 		if cfg.stubs && c.Chance(1, 4, "stub") {
@@ -317,7 +318,7 @@ func genSpec(c *sim.Ctx, cfg genCfg) *ref.Spec {
 			}
 			if cfg.guards && c.Chance(1, 4, "guard") {
 				b.Guard = genAction(c, cfg, names, true)
-				if !b.HasPat || b.Pattern == nil {
+				if (!b.HasPat || b.Pattern == nil) && !cfg.inPlaceAll {
 					// without a pattern the guard is handed the state's own bindings, as a native
 					// action is; only a match result is the guard's to change (C03: each result
 					// is an independent map)
